@@ -299,6 +299,8 @@ class World:
             self.res.log.log("server", k, n, kind, inf.get("error"), (inf.get("task") or {}).get("cmd"))
             self.tap.append(TapRecord(wire, f"{kind}_req" if kind else "unknown_req", k, self._truth(kind, outgoing, st),
                                       corrupted, parts=parts))
+            if outgoing and outgoing[0] == "post" and not corrupted and copy == 0:
+                st.setdefault("delivered_cbs", []).extend(outgoing[1])
             self._peer_oracles(k, st, kind, inf, outgoing, corrupted, wire)
             if kind == "get" and not inf.get("error"):
                 truth = [("task", epoch, inf["task"]["cmd"], inf["task"]["data"])] if inf.get("task") else []
@@ -427,8 +429,41 @@ class World:
                 self.end_reason = why
             finally:
                 k.shutdown()
+            self._identity_probe()
         self.res.sim_time_us = k.now
         self.after_run()
+
+    def _identity_probe(self):
+        """Same beacon id => same session keys, whatever the other run() options are (dry runs, still inside the seams)."""
+        from dissect.cobaltstrike.client import HttpBeaconClient
+        for spec in self.plan["clients"]:
+            req = spec["run"].get("beacon_id")
+            st = self.clients.get(spec["k"])
+            if req is None or st is None or st.get("rejected") is not None or not st["keys"]:
+                continue
+            variants = [dict(pid=None), dict(pid=31337, user="someone.else", computer="OTHER-PC", process="x.exe", arch="x86",
+                                             internal_ip="10.9.8.7", high_integrity=True, sleeptime=1234, jitter=3)]
+            seen = set(st["keys"])
+            for kw in variants:
+                c = HttpBeaconClient()
+                c.logger = _NullLogger()
+                try:
+                    c.run(self.bconfig, dry_run=True, beacon_id=req, **kw)
+                except Exception as e:  # noqa: BLE001
+                    self.violate("C19", "dry_run_raised", type(e).__name__, f"dry run with beacon_id={req} and {kw} raised {e!r}")
+                    break
+                self.res.probes["identity_probe"] += 1
+                seen.add(bytes(c.aes_rand))
+                if c.beacon_id != st["ids"][0]:
+                    self.violate("C19", "beacon_id_depends_on_options", f"beacon_id {c.beacon_id} with options {kw}, {st['ids'][0]} in the session")
+                import hashlib
+                d = hashlib.sha256(c.aes_rand).digest()
+                if (c.aes_key, c.hmac_key) != (d[:16], d[16:]):
+                    self.violate("C19", "client_key_split", "client aes/hmac keys are not the halves of SHA-256(aes_rand)")
+            if len(seen) > 1:
+                self.violate("C19", "session_keys_depend_on_options",
+                             f"beacon id {req}: {len(seen)} different aes_rand values across the session and dry runs with other options "
+                             f"(pid given / omitted, other names)")
 
     def _pending_tasks(self) -> int:
         n = 0
@@ -762,7 +797,7 @@ class World:
                              f"(deadline {lim['deadline_us']} us + bound, now {self.kernel.now} us, last fault at {self.last_fault_time} us)")
             # conservation: every callback produced reached the server unless its POST was hit by a fault
             recv = Counter((cb, data) for _, cb, data in self.server.received_callbacks.get(bid, []))
-            prod = Counter(st["produced"])
+            prod = Counter(st.get("delivered_cbs", []))   # callbacks whose POST reached the server (not still in flight)
             faulty_posts = any(f["client"] == kk for f in self.plan.get("faults", []))
             if not faulty_posts and st["incarnations"] == 1 and recv != prod:
                 missing = list((prod - recv).elements())[:3]
